@@ -184,6 +184,22 @@ CHECKS = {
             'windows, nothing outside them.',
             'Values outside the enumerated windows are not covered (the property allows sampling there; sampling is outside this '
             'technique). Illegal-form lists are finite. Exactness oracles use Python int/Decimal arithmetic.', '3/C18'),
+    'C19': ('I', 'bounded-exhaustive enumeration of TLS configurations x life-cycle scripts x injected connection faults on the real provider and consumer over a loop-back wire, plus real in-memory TLS handshakes for every certloader variant',
+            'All 192 combinations of provider TLS {off,on} x consumer {none, optional, enforced} x own/shared HTTP server on each side x '
+            'alternative host name on each side x sync/async subscription manager, each with both shutdown orders (thorough: 3 '
+            'operations), run the script start-up, GetMetadata of every hosted service, subscribe, mdib load, operation, reports, '
+            'renew/status, shutdown; then one TLS connect failure at every connect position and one dropped connection at every '
+            'message position of either party. The library HttpServerThreadBase runs its real run() over a socket-less stand-in; '
+            'contexts are recording ssl.SSLContext subclasses. On every execution: every URL that names a provider (consumer) host '
+            'anywhere on the wire, in the WS-Discovery publication, get_xaddrs, base_urls is https; every soap client constructed '
+            'carries the client context (identity); own servers got and used the server context; no message or connect without TLS; '
+            'compatible settings must complete the script. certloader: 16 ways to build contexts from a CA file (direct/folder x '
+            'cipher string x plain/encrypted key with str/bytes/callable password) x real TLS handshakes over memory BIOs against '
+            'peers with a CA-signed, foreign-CA, self-signed and no certificate, in both directions: success exactly for the '
+            'CA-signed peer.',
+            'The TCP/TLS layer below SoapClient/HTTPSConnectionNoDelay and aiohttp is replaced by the loop-back wire, which refuses '
+            'TLS-to-plaintext and plaintext-to-TLS connects like a real peer; that the real socket classes honour the context they '
+            'are given is not explored.', '3/C19'),
     'C20': ('I', 'exhaustive enumeration of all handle lists up to a length bound over several MDIB contents, and of the full product of localization filter parameters over several stores, through the real consumer clients and provider services',
             'All handle lists of length <= 2 (thorough 3) over a pool of 9-11 handles (two context-state handles, context descriptors, '
             'metric, MDS of both MDS, VMD, system context, unknown - duplicates and mixed kinds arise by construction) are sent as '
